@@ -210,6 +210,9 @@ Section MergeInv.
     c_task : forall t, task m t = false;
     c_fin : mg_end s = n -> sk_over (sk m 0) = true;
     c_disp : sk m 0 = SDisposed -> exists i, i < n /\ us m i <> UEnded;
+    (** a talkback still in its cell belongs to a member that is live or has failed: whoever
+        stops a member (sink broadcast, failing sibling) takes its talkback out *)
+    c_tb_set : forall k, mg_tbs s k = true -> us m k = ULive \/ us m k = UEnded;
   }.
 
   Record InvP (s : mg_st) (st : list (mg_fr * call)) (m : mstate) : Prop := {
@@ -294,8 +297,20 @@ Section MergeInv.
                destruct (Nat.eqb_spec x k); [first [subst x|subst k|idtac]|]
            end.
 
+  (** the clause [c_tb_set] across a pointwise change; [H0] is the clause before the step *)
+  Ltac tbset H0 :=
+    let k := fresh "k" in let H := fresh "H" in
+    intros k H; ucase; try discriminate; auto;
+    try (let X := fresh "X" in destruct (H0 _ H) as [X|X]; congruence).
+
   Definition set_ended (s : mg_st) : mg_st :=
     {| mg_tbs := mg_tbs s; mg_start := mg_start s; mg_end := mg_end s; mg_ended := true |}.
+  (** the talkback of member [j] taken out of its cell (an ending message on its way to [j]) *)
+  Definition clr (s : mg_st) (j : nat) : mg_st :=
+    {| mg_tbs := upd (mg_tbs s) j false; mg_start := mg_start s; mg_end := mg_end s;
+       mg_ended := mg_ended s |}.
+  Definition clrif (u : umsg) (s : mg_st) (j : nat) : mg_st :=
+    if umsg_is_term u then clr s j else s.
   Definition greet (s : mg_st) (i : nat) : mg_st :=
     {| mg_tbs := upd (mg_tbs s) i true; mg_start := S (mg_start s); mg_end := mg_end s;
        mg_ended := mg_ended s |}.
@@ -312,16 +327,18 @@ Section MergeInv.
 
   Lemma T_stop s m m' j :
     Core s m -> mg_ended s = true -> us m j = ULive ->
-    sk m' = sk m -> us m' = upd (us m) j UStopped -> task m' = task m -> Core s m'.
+    sk m' = sk m -> us m' = upd (us m) j UStopped -> task m' = task m -> Core (clr s j) m'.
   Proof.
-    intros [] He Hj E1 E2 E3. constructor; rewrite ?E1, ?E2, ?E3; auto.
+    intros [] He Hj E1 E2 E3.
+    constructor; rewrite ?E1, ?E2, ?E3; cbn [clr mg_tbs mg_start mg_end mg_ended]; auto.
     - intros k Hk. ucase; [|auto]. rewrite c_us_big0 in Hj by assumption. discriminate.
     - intros k H. ucase; [discriminate|auto].
     - congruence.
     - rewrite c_count0. apply count_ext. intros k _. unfold done. rewrite E2.
-      ucase; [rewrite Hj|]; reflexivity.
+      cbn [clr mg_tbs]. ucase; [rewrite Hj|]; reflexivity.
     - intros H. destruct (c_disp0 H) as (i & Hi & Hne). exists i. split; [exact Hi|].
       ucase; [discriminate|exact Hne].
+    - tbset c_tb_set0.
   Qed.
 
   Lemma T_dispose s m m' :
@@ -352,6 +369,7 @@ Section MergeInv.
     - rewrite c_count0. apply count_ext. intros k _. unfold done. cbn. rewrite E2.
       ucase; [|reflexivity]. rewrite Hi, (c_live_tb0 _ Hi). reflexivity.
     - intros H. congruence.
+    - tbset c_tb_set0.
   Qed.
 
   Lemma T_finish s m m' :
@@ -378,6 +396,7 @@ Section MergeInv.
       ucase; [rewrite Hi|]; reflexivity.
     - intros H. destruct (c_disp0 H) as (i0 & Hi0 & Hne). exists i0. split; [exact Hi0|].
       ucase; [discriminate|exact Hne].
+    - tbset c_tb_set0.
   Qed.
 
   Lemma T_greet s m m' i :
@@ -402,6 +421,7 @@ Section MergeInv.
     - destruct Hsk as [[_ ->]|[_ ->]]; [|rewrite upd_same; discriminate].
       intros H. destruct (c_disp0 H) as (i0 & Hi0 & Hne). exists i0. split; [exact Hi0|].
       ucase; [discriminate|exact Hne].
+    - tbset c_tb_set0.
   Qed.
 
   Lemma T_term s m m' i :
@@ -426,6 +446,7 @@ Section MergeInv.
     - destruct Hsk as [[_ ->]|[_ ->]]; [auto|]. rewrite upd_same. split; [discriminate|tauto].
     - intros Hfull. destruct Hsk as [[H _]|[_ ->]]; [congruence|]. now rewrite upd_same.
     - destruct Hsk as [[_ ->]|[_ ->]]; [congruence|]. rewrite upd_same. discriminate.
+    - tbset c_tb_set0.
   Qed.
 
   Lemma T_subscribe s m m' i :
@@ -441,6 +462,7 @@ Section MergeInv.
     - intros k H1 H2. ucase; [congruence | now apply (c_greeted0 k)].
     - intros H. destruct (c_disp0 H) as (i0 & Hi0 & Hne). exists i0. split; [exact Hi0|].
       ucase; [discriminate|exact Hne].
+    - tbset c_tb_set0.
   Qed.
 
   (** *** Inputs only arrive in quiet shapes *)
@@ -564,12 +586,13 @@ Section MergeInv.
     mg_ended s = false ->
     mg_handle n (IUp 0 u) s =
     match find_from (mg_tbs s) 0 (n - 0) with
-    | Some j' => (endif u s, [], ACall (CUp j' u) (MgBcast u (S j')))
+    | Some j' => (clrif u (endif u s) j', [], ACall (CUp j' u) (MgBcast u (S j')))
     | None => (endif u s, [], ARet)
     end.
   Proof.
-    intros He. unfold mg_handle, mg_bcast, endif, set_ended.
-    destruct u; cbn [umsg_is_term negb andb mg_ended mg_tbs]; rewrite ?He; reflexivity.
+    intros He. unfold mg_handle, mg_bcast, endif, clrif, clr, set_ended.
+    destruct u; cbn [umsg_is_term negb andb mg_ended mg_tbs mg_start mg_end]; rewrite ?He;
+      reflexivity.
   Qed.
 
   Lemma inv_sub c s aux : Inv c -> enabled p gm c (MIn (ISub s aux)) = true ->
@@ -635,9 +658,10 @@ Section MergeInv.
         assert (Hlow : forall k, k < S j' -> upd (us (ms c)) j' UStopped k <> ULive).
         { intros k Hk Hl. ucase; [discriminate|].
           pose proof (c_live_tb HC _ Hl) as Ht. rewrite Hlt in Ht; [discriminate|lia|lia]. }
-        assert (Hhigh : forall k, S j' <= k -> k < n -> mg_tbs (cst c) k = true ->
+        assert (Hhigh : forall k, S j' <= k -> k < n -> upd (mg_tbs (cst c)) j' false k = true ->
                                   upd (us (ms c)) j' UStopped k = ULive).
-        { intros k Hk1 Hk2 Hk3. rewrite upd_other by lia. now apply (c_tb_live HC). }
+        { intros k Hk1 Hk2 Hk3. rewrite upd_other in Hk3 |- * by lia.
+          now apply (c_tb_live HC). }
         destruct Hq as [Hq1 Hq2].
         destruct u as [|e|]; (constructor; [intros H; cbn in H; congruence| |]).
         * eapply T_same; [exact HC | reflexivity..].
@@ -707,7 +731,7 @@ Section MergeInv.
       + cbn. rewrite Hlj. reflexivity.
       + constructor.
         * intros H. cbn in H. congruence.
-        * eapply T_stop with (m := m1) (j := j'); [exact HC|exact Hend|exact Hlj|reflexivity..].
+        * apply (@T_stop s m1 _ j'); [exact HC|exact Hend|exact Hlj|reflexivity..].
         * apply Sh_err; cbn; auto.
           -- eapply qstack_mono; [|exact HF]. intros k Hk. cbn. ucase; congruence.
           -- apply upd_same.
@@ -717,7 +741,8 @@ Section MergeInv.
              assert (Hf : negb (Nat.eqb k i) && mg_tbs s k = false) by (apply Hlt; lia).
              rewrite (c_live_tb HC _ Hl), andb_true_r in Hf.
              apply negb_false_iff, Nat.eqb_eq in Hf. subst. congruence.
-          -- intros k Hk1 Hk2 Hk3 Hk4. rewrite upd_other by lia. apply Hhigh; auto; lia.
+          -- intros k Hk1 Hk2 Hk3 Hk4. rewrite upd_other in Hk4 |- * by lia.
+             apply Hhigh; auto; lia.
     - pose proof (@find_from_none _ _ _ Ef) as Hnone.
       eapply fin_call with (m1 := m1); [exact Hv|exact Hc|exact Hs|exact Hm|exact Hd| |].
       + cbn. rewrite Hsk, Hnonest, Hex. reflexivity.
@@ -1001,7 +1026,7 @@ Section MergeInv.
     { apply (subd_true HP). right. left. rewrite Hst. discriminate. }
     assert (Hr : resume o (MgBcast u (S j)) (cst c) =
                  match find_from (mg_tbs (cst c)) (S j) (n - S j) with
-                 | Some j' => (cst c, [], ACall (CUp j' u) (MgBcast u (S j')))
+                 | Some j' => (clr (cst c) j', [], ACall (CUp j' u) (MgBcast u (S j')))
                  | None => (cst c, [], ARet)
                  end).
     { cbn. unfold mg_bcast. rewrite Hu. reflexivity. }
@@ -1014,9 +1039,9 @@ Section MergeInv.
       { intros k Hk Hl. ucase; [discriminate|].
         destruct (Nat.lt_ge_cases k (S j)) as [Hkj|Hkj]; [now apply (Hlow k)|].
         pose proof (c_live_tb HC _ Hl) as Ht. rewrite Hlt in Ht; [discriminate|lia|lia]. }
-      assert (Hhigh' : forall k, S j' <= k -> k < n -> mg_tbs (cst c) k = true ->
+      assert (Hhigh' : forall k, S j' <= k -> k < n -> upd (mg_tbs (cst c)) j' false k = true ->
                                  upd (us (ms c)) j' UStopped k = ULive).
-      { intros k Hk1 Hk2 Hk3. rewrite upd_other by lia. apply Hhigh; auto; lia. }
+      { intros k Hk1 Hk2 Hk3. rewrite upd_other in Hk3 |- * by lia. apply Hhigh; auto; lia. }
       assert (Hmono : forall k, us (ms c) k = UNone -> upd (us (ms c)) j' UStopped k = UNone).
       { intros k Hk. ucase; congruence. }
       eapply fin_call with (m1 := mon_event p (ms c) ERet);
